@@ -392,8 +392,8 @@ impl C03 {
     fn sizes(&self) -> (usize, usize, usize, usize) {
         // (generated zinc docs, generated json docs, search units, cases per search unit)
         match self.ctx.tier {
-            Tier::Quick => (300, 120, 128, 3000),
-            Tier::Thorough => (1500, 600, 640, 4000),
+            Tier::Quick => (300, 120, 256, 6000),
+            Tier::Thorough => (1500, 600, 1024, 12000),
         }
     }
 
